@@ -2,7 +2,8 @@
 //!
 //! Only compiled with `--cfg rustic_core_verif`; nothing in here is used by the library itself.
 //! The module merely makes crate-private functionality callable: building the in-memory index
-//! from a list of [`IndexPack`]s in each index mode, and creating the chunk iterator.
+//! from a list of [`IndexPack`]s in each index mode, creating the chunk iterator, and sealing / opening
+//! a message with the master key.
 
 use std::io::Read;
 
@@ -10,11 +11,12 @@ use crate::{
     RusticResult,
     blob::{BlobId, BlobType},
     chunker::ChunkIter,
+    crypto::CryptoKey,
     index::{
         GlobalIndex, ReadIndex,
         binarysorted::{IndexCollector, IndexType},
     },
-    repofile::{ConfigFile, IndexPack, PackId},
+    repofile::{ConfigFile, IndexPack, MasterKey, PackId},
 };
 
 /// The in-memory index built from the given packs (as if they were the `packs` sections of index files)
@@ -78,4 +80,22 @@ pub fn chunk_iter<R: Read + Send + 'static>(
     size_hint: usize,
 ) -> RusticResult<Box<dyn Iterator<Item = RusticResult<Vec<u8>>> + Send>> {
     Ok(Box::new(ChunkIter::from_config(config, reader, size_hint)?))
+}
+
+/// Seal `data` with the master key exactly as every repository file and blob is sealed
+///
+/// # Errors
+///
+/// * If the data could not be encrypted
+pub fn encrypt_data(key: &MasterKey, data: &[u8]) -> RusticResult<Vec<u8>> {
+    key.key().encrypt_data(data)
+}
+
+/// Open a sealed message with the master key exactly as every repository file and blob is opened
+///
+/// # Errors
+///
+/// * If the message is too short or its MAC does not verify
+pub fn decrypt_data(key: &MasterKey, data: &[u8]) -> RusticResult<Vec<u8>> {
+    key.key().decrypt_data(data)
 }
